@@ -96,6 +96,13 @@ def ev_msg(m, **pol):
     return Ev("bytes " + m.raw.hex(), "(SMsg %s)" % m.term, pol)
 
 
+def ev_burst(m, k, bad=False):
+    """one write carrying k copies of m (k >= 1), then -- bad -- an oversized frame header that makes recv_frame fail: the
+    manager-side channel (64 slots) fills before the harness reads it"""
+    tail = struct.pack(">IB", 2 ** 31, 7) if bad else b""
+    return Ev("bytes " + (m.raw * k + tail).hex(), "(SBurst %s %d %s)" % (m.term, k, "true" if bad else "false"))
+
+
 def split_events(rng, evs, prob=0.15):
     """cut some message frames into two writes at a random position (TCP may deliver any prefix first): the first write
     is an incomplete frame and must change nothing, the second completes the message"""
@@ -203,6 +210,7 @@ class HndBase:
         outs = [o.strip() for o in out.split(" ; ")]
         steps = []
         tprev = 0
+        svalid = True
         for e, o in zip(sc.events, outs):
             f = dict(x.split("=", 1) for x in o.split())
             t = int(f["t"])
@@ -212,17 +220,27 @@ class HndBase:
                 term = "(STicks %d)" % k
             elif k > 0:
                 term = "(SThen %s %d)" % (term, k)
+            # transfer statistics: a 10 s grid on the same clock; a step that is not a pure wait and crosses a statistics
+            # instant has no determined order between its counter updates and the tick: no comparison from there on
+            sticks = t // 10000 - tprev // 10000
+            if e.term is not None and sticks > 0:
+                svalid = False
             tprev = t
             sent = b"" if f["sent"] == "-" else bytes.fromhex(f["sent"])
             cmds = [] if f["cmds"] == "-" else f["cmds"].split(",")
+            reports = [x.split(":")[1:] for x in cmds if x.startswith("STATS:")]
+            cmds = [x for x in cmds if not x.startswith("STATS:")]
+            on = lambda v: "None" if v == "-" else "(Some %s)" % v
+            stats = ";".join("(%s, %s, %s)" % (on(r[0]), on(r[1]), r[2]) for r in reports)
             files = []
             if f["files"] != "-":
                 for x in f["files"].split(","):
                     name, ln, sh = x.split(":")
                     files.append("(%s, %s, %s)" % (coq_bytes(bytes.fromhex(name)), ln, coq_bytes(bytes.fromhex(sh))))
             fin = {"-": 0, "N": 1, "E": 2, "P": 3}[f["fin"]]
-            steps.append("(%s, %s, mkobs %s [%s] [%s] %d)" % (term, coq_policy(e.pol, n), coq_bytes(sent, sc.blobs),
-                                                              ";".join(coq_ocmd(x) for x in cmds), ";".join(files), fin))
+            steps.append("(%s, %s, mkobs %s [%s] [%s] %d [%s] %d %s)" % (term, coq_policy(e.pol, n), coq_bytes(sent, sc.blobs),
+                                                                         ";".join(coq_ocmd(x) for x in cmds), ";".join(files), fin,
+                                                                         stats, sticks, "true" if svalid else "false"))
         conf = "(mkconf %s %s %d [%s])" % (coq_bytes(OWN_ID), coq_bytes(INFO_HASH), n, ";".join(coq_bytes(h) for h in sc.hashes))
         data = "[%s]" % ";".join(b.term for b in sc.blobs)
         return "mkcase %s %s %s [\n %s]" % ("true" if sc.outgoing else "false", conf, data, ";\n ".join(steps))
@@ -292,11 +310,15 @@ def greet(rng, outgoing, n, init_bits=None, late=0.0, wrong=None):
         ih = b"J" + INFO_HASH[1:]
     if wrong == "id":
         pid = PEER_ID[:-1] + b"Q"
+    first = ev_msg(m_hs(ih, pid)) if outgoing else ev_msg(m_hs(ih, pid), init=init)
+    if wrong == "proto":
+        # right hash and id, exactly one byte of the fixed beginning (length byte + "BitTorrent protocol") off: not a handshake
+        h = bytearray(hs(ih, pid))
+        h[rng.randrange(20)] ^= rng.choice([1, 0x20, 0x80, 0xff])
+        first = ev_bad(bytes(h))
     if outgoing:
         ev.append(ev_start(init=init))
-        ev.append(ev_msg(m_hs(ih, pid)))
-    else:
-        ev.append(ev_msg(m_hs(ih, pid), init=init))
+    ev.append(first)
     return ev, init
 
 
